@@ -9,3 +9,8 @@ import (
 func TestProp(t *testing.T) {
 	h.Run(t, h.Spec[Case]{ID: "C12", Gen: Gen(), Prop: Prop, CountSubs: true})
 }
+
+// FuzzProp is the native coverage-guided fuzz target (thorough tier).
+func FuzzProp(f *testing.F) {
+	h.Fuzz(f, h.Spec[Case]{ID: "C12", Gen: Gen(), Prop: Prop, CountSubs: true})
+}
